@@ -429,6 +429,31 @@ def table_boundary_rowids(tdb, root):
     return out
 
 
+def warm_groups(v, ops, rnd, tier):
+    """A sample of the operations is run again on LONG-LIVED handles: groups of six operations, executed a-b-c-d-e-f-a-b-..
+    on one handle, so that every one of them also runs on a warm page / schema cache and after other operations (anything
+    an operation leaves behind in the handle -- a half-filled memo, a moved cursor -- shows in the second round)."""
+    import copy
+    free = [i for i, it in enumerate(ops.items) if it.get("group") is None and not it["o"].get("fail") and not it["o"].get("lockfail")]
+    by_db = {}
+    for i in free:
+        by_db.setdefault(ops.items[i]["db"], []).append(i)
+    ng = 0
+    for dbn, idx in sorted(by_db.items()):
+        take = rnd.sample(idx, min(len(idx), 12 if tier == "quick" else 120))
+        for a in range(0, len(take), 6):
+            g = "warm%d" % ng
+            ng += 1
+            for rep in range(2):
+                for i in take[a:a + 6]:
+                    it = copy.deepcopy({k_: v_ for k_, v_ in ops.items[i].items() if k_ not in ("res", "line")})
+                    it["h"]["id"] = len(ops.items)
+                    it.update(group=g, conf=False)
+                    it["meta"] = dict(it.get("meta") or {}, cls=(it.get("meta") or {}).get("cls", "") + "/warm-handle")
+                    ops.items.append(it)
+    v.cov["operations_repeated_on_long_lived_handles"] = ng * 12
+
+
 def run_family(prop, tier, focus, build, owned, rule, extra=None):
     """Common driver: (M) the MC slice, (B)+(C) the operations `build` adds, judged by TraceOps."""
     v = common.Verdict(prop, tier)
@@ -442,6 +467,7 @@ def run_family(prop, tier, focus, build, owned, rule, extra=None):
     for s in suite:
         ops.add_db(s["tdb"])
     build(v, suite, ops, rnd, tier, h, d)
+    warm_groups(v, ops, rnd, tier)
     r = ops.run(h, d, tag=prop.lower(), timeout=3000)
     judge(v, prop, suite, ops, r, owned, prop)
     if extra:
